@@ -63,6 +63,10 @@ def run(ctx) -> None:
         for mode in modes:
             for part in _C.analyse_escaper(ctx, lf, mode, _C.spec_boundaries(lang)):
                 _C.judge(ctx, "CHR", part, lang)
+    # parts of an f-string written between quotes that the caller chooses (shared with C19)
+    ctx.rule("ENCLOSE", "a literal emitted without its quotes is escaped for the quote the caller encloses it with (explicit quoting=)", floor=2)
+    from ..rules import litkw as _litkw
+    _litkw.check_enclosing_agreement(ctx, "ENCLOSE")
 
 
 def _replace_chain(e: ast.AST) -> List[Tuple[str, str]]:
@@ -222,10 +226,10 @@ def check_xml_escape(ctx) -> None:
         ctx.fail("XML-ESC", j, j.node, f"Java documentation text is escaped as {chain}: `&` must be replaced first, and `<`, `>` as well", construct="java transform_text escape")
 
 
-def check_taint(ctx) -> None:
+def check_taint(ctx, scope=None) -> None:
     p = ctx.p
     n_sites = 0
-    for f in funcs(p, in_generators):
+    for f in funcs(p, scope or in_generators):
         art = artefacts(ctx.ty, f)
         ft = art.types
         ft.build()
